@@ -49,12 +49,17 @@ def gen_cases(rng, ctx):
     thorough = ctx["tier"] == "thorough" or ctx.get("widened")
     cases = []
 
-    def session(cfg, reqs, kind):
-        toks = [cfg]
+    def session(cfg, reqs, kind, front=0):
+        # front: 0 = door after the TLS handshake; 1 = the real listener over TLS; 3 = the real listener over QUIC + HTTP/3
+        if front == 3:
+            cfg = [cfg[0], 1] + cfg[2:]
+        toks = []
         for (tname, k, target, payload, oc), h in reqs:
             toks += [[k, oc], list(target), hdr_tok(h), list(payload)]
-        l = line("c01_session", toks)
-        cases.append(Case(l, l, kind=kind, nontrivial=True, meta={"cfg": cfg, "reqs": [(t[0], t[1], t[4], h is not None) for t, h in reqs]}))
+        li = line("c01_session", [cfg + [front]] + toks)
+        lm = line("c01_session", [cfg] + toks)
+        cases.append(Case(li, lm, kind=kind + ("" if front == 0 else "-listener" if front == 1 else "-quic"), nontrivial=True,
+                          meta={"cfg": cfg, "front": front, "reqs": [(t[0], t[1], t[4], h is not None) for t, h in reqs]}))
 
     for private in (1, 0):
         ts = targets(private)
@@ -63,6 +68,13 @@ def gen_cases(rng, ctx):
             for i in range(0, len(ts), 6):
                 session([0, http2, 0, private], [(t, None) for t in ts[i:i + 6]], "table:private%d-h%d" % (private, 2 if http2 else 1))
             session([1, http2, 0, private], [(t, VALID[0]) for t in ts[:3]] + [(t, None) for t in ts[:3]], "table:auth-private%d-h%d" % (private, 2 if http2 else 1))
+    # the table again through the endpoint's real listener (TLS for HTTP/1.1 and HTTP/2, QUIC for HTTP/3)
+    for front, http2 in ((1, 0), (1, 1), (3, 1)):
+        for private in ((1, 0) if thorough or front == 3 else (1,)):
+            ts = targets(private)
+            for i in range(0, len(ts), 6):
+                session([0, http2, 0, private], [(t, None) for t in ts[i:i + 6]],
+                        "table:private%d-%s" % (private, "h3" if front == 3 else "h%d" % (2 if http2 else 1)), front)
     for i in range(120 if thorough else 30):
         private = rng.below(2)
         ts = targets(private)
@@ -70,7 +82,8 @@ def gen_cases(rng, ctx):
         reqs = []
         for _ in range(rng.choice([2, 4, 6])):
             reqs.append((rng.choice(ts), rng.choice([VALID[0], VALID[0], None]) if cfg[0] else None))
-        session(cfg, reqs, "random:auth%d-private%d-h%d" % (cfg[0], private, 2 if cfg[1] else 1))
+        front = [0, 1, 3][i % 3]
+        session(cfg, reqs, "random:auth%d-private%d-%s" % (cfg[0], private, "h3" if front == 3 else "h%d" % (2 if cfg[1] else 1)), front)
     return cases
 
 
@@ -80,7 +93,11 @@ def judge(case, impl, model, spec, ctx):
     answers = [untok(t) for t in impl.split()]
     manswers = [untok(t) for t in model.split()] if model else []
     cfg = case.meta["cfg"]
-    proto = "HTTP/2" if cfg[1] else "HTTP/1.1"
+    front = case.meta.get("front", 0)
+    proto = "HTTP/3 over the real QUIC listener" if front == 3 else ("HTTP/2" if cfg[1] else "HTTP/1.1") + (" over the real TLS listener" if front == 1 else "")
+    if impl == "996":
+        ctx.setdefault("skipped_env", []).append(case.kind)
+        return []
     out = []
     for n, ((tname, kind, oc, has_creds), a) in enumerate(zip(case.meta["reqs"], answers)):
         if a == [996]:
